@@ -515,7 +515,6 @@ Proof.
     cbv zeta.
     apply QuietM_bind; [match goal with |- QuietM (if ?c then _ else _) => destruct c end;
                         [apply QuietM_send; reflexivity|apply QuietM_ret]|intros _].
-    apply QuietM_bind; [destruct (f_pd x); [apply QuietM_raise|apply QuietM_ret]|intros _].
     apply QuietM_bind; [apply QuietM_send; reflexivity|intros _].
     apply IH.
 Qed.
